@@ -13,7 +13,12 @@ HOOKS = {
 T_KANI = 'solver-based bounded model checking of the compiled real code with Kani/CBMC (kani::any() inputs, SAT back end), counterexamples via concrete playback replayed natively'
 N_KANI = 'trusted: Kani 0.68/CBMC 6.11, its models of primitive any(); harness crate /verif/kani with path dependencies on /repo (rebuilt every run); one harness per concrete instantiation, listed in the evidence'
 
+T_PEG = 'solver-based: the pest grammar file is encoded as SMT constraints over a symbolic string of bounded length (PEG semantics incl. implicit whitespace and atomicity), decided by z3'
+N_PEG = 'trusted: pest implements PEG semantics as documented; the pegsmt encoder (validated on concrete strings against the real parser); z3'
+
 ENGINES = [
+    {'name': 'E3-pegsmt', 'path': 'pegsmt/', 'serves_properties': ['C01', 'C03'],
+     'kind_free_text': 'PEG-to-SMT encoder for crates/core/src/parser/grammar.pest, re-read on every run'},
     {'name': 'E1-kani', 'path': 'kani/', 'serves_properties': ['C07', 'C11'],
      'kind_free_text': 'Kani proof harnesses over the real liquid-core code for scalar-level units (symbolic i64/f64/bool inputs, all bit patterns), unwinding assertions on, cover! vacuity witnesses'},
     {'name': 'E2-mirsym', 'path': 'mirsym/', 'serves_properties': ['C04', 'C05', 'C06', 'C10', 'C15', 'C18'],
@@ -37,6 +42,10 @@ CHECKS = {
             'text': 'Kani proves <Vec<i64> as ArrayView>::{get, contains_key, size, first, last} positional for len<=5 and EVERY i64 index (negatives from the end, everything else absent).'},
     'C06': {'engine': 'E2-mirsym', 'technique': T_MIR, 'note': N_MIR + '; token stream, operand expressions and branch bodies are abstract stubs',
             'text': 'Real MIR of Conditional::render_to (one branch, mode flag), Condition::evaluate (left-to-right short-circuit, error propagation, all trees up to 4 atoms), if_block::parse_condition over abstract token streams (and tighter than or, left association, operator mapping, malformed streams are errors), BinaryCondition::evaluate (operator table against z3 relations for all i64xi64 and i64xf64), ExistenceCondition::evaluate (truthiness per kind, undefined = nil), Case::render_to (first matching arm).'},
+    'C01': {'engine': 'E3-pegsmt', 'technique': T_PEG + '; plus ' + T_MIR, 'note': N_PEG + '; ' + N_MIR,
+            'text': 'Facets: (1) the lax top-level grammar rule consumes EVERY string of up to N code points (N=12 quick, 18 thorough), so parser::parse cannot hit its expects; (2) every text accepted as Float/Boolean/String literal is convertible; (3) real MIR of parse_literal on integer literals of 1..20 symbolic digits with optional sign: the denoted integer when it fits, otherwise a float, never a panic. Block-parser totality (TagBlock) is not covered yet.'},
+    'C03': {'engine': 'E3-pegsmt', 'technique': T_PEG, 'note': N_PEG,
+            'text': 'Grammar facets for every string of up to N code points: trim-whitespace set is exactly {space, tab, LF, CR}; trimming start/end delimiters consume exactly the adjacent whitespace run, plain ones nothing else; Raw text is maximal, contains no start delimiter, and plain text is a single Raw covering the input.'},
 }
 
 NOT_BUILT = 'not claimed yet: obligations for this property are not built in this revision (see DESIGN.md §4)'
@@ -44,5 +53,5 @@ NOT_APPLICABLE = {
     'C09': 'quantifies over histories of whole parse+render calls; needs the pest parser and HashMap-backed registers inside the solver (measured out of reach) or a frame condition that is a typing fact, not a solver query (DESIGN.md §5)',
     'C20': 'quantifies over thread schedules; Kani does not support concurrency and the MIR executor has no interleaving semantics (DESIGN.md §5)',
 }
-for _p in ['C01', 'C02', 'C03', 'C08', 'C12', 'C13', 'C14', 'C16', 'C17', 'C19']:
+for _p in ['C02', 'C08', 'C12', 'C13', 'C14', 'C16', 'C17', 'C19']:
     NOT_APPLICABLE.setdefault(_p, NOT_BUILT)
